@@ -230,6 +230,10 @@ class _StripCasts(ast.NodeTransformer):
         self.generic_visit(node)
         if dotted(node.func) in _CAST_NAMES and len(node.args) == 2:
             return node.args[1]
+        # `type(self)` is the same object as `self.__class__` for these classes
+        if isinstance(node.func, ast.Name) and node.func.id == "type" and len(node.args) == 1 and not node.keywords \
+                and isinstance(node.args[0], ast.Name) and node.args[0].id in ("self", "dt"):
+            return ast.Attribute(value=node.args[0], attr="__class__", ctx=ast.Load())
         return node
 
 
@@ -314,12 +318,48 @@ def bind(call: ast.Call, fn_params: list[str]) -> dict[str, ast.expr]:
     return out
 
 
-def returns(fn: ast.AST) -> list[ast.Return]:
+def returns(fn: ast.AST, resolve_locals: bool = True) -> list[ast.Return]:
+    """The return statements of `fn`.  In a straight-line function (no branching, every local assigned once) the
+    returned expression is given with its locals replaced by their definitions, so that
+    `x = f(); return g(x)` and `return g(f())` look the same to the rules."""
     out = []
     for n in walk_fn(fn):
         if isinstance(n, ast.Return):
             out.append(n)
+    if resolve_locals and len(out) == 1 and isinstance(fn, (ast.FunctionDef, ast.AsyncFunctionDef)) and out[0].value is not None:
+        body = body_no_doc(fn)
+        simple = all(isinstance(st, (ast.Assign, ast.AnnAssign, ast.Return, ast.Expr, ast.Import, ast.ImportFrom, ast.Pass)) for st in body)
+        if simple and body and body[-1] is out[0]:
+            env: dict[str, ast.expr] = {}
+            ok = True
+            for st in body[:-1]:
+                tgt = val = None
+                if isinstance(st, ast.Assign) and len(st.targets) == 1 and isinstance(st.targets[0], ast.Name):
+                    tgt, val = st.targets[0].id, st.value
+                elif isinstance(st, ast.AnnAssign) and isinstance(st.target, ast.Name) and st.value is not None:
+                    tgt, val = st.target.id, st.value
+                elif isinstance(st, (ast.Assign, ast.AnnAssign)):
+                    continue
+                if tgt is not None:
+                    if tgt in env:
+                        ok = False
+                        break
+                    env[tgt] = _subst_names(val, env)
+            if ok and env:
+                r = ast.Return(value=_subst_names(out[0].value, env))
+                ast.copy_location(r, out[0])
+                r._parent = getattr(out[0], "_parent", None)  # type: ignore[attr-defined]
+                return [r]
     return out
+
+
+def _subst_names(expr: ast.expr, env: dict[str, ast.expr]) -> ast.expr:
+    class S(ast.NodeTransformer):
+        def visit_Name(self, node: ast.Name):
+            if isinstance(node.ctx, ast.Load) and node.id in env:
+                return clone(env[node.id])
+            return node
+    return S().visit(clone(expr))
 
 
 def walk_fn(fn: ast.AST) -> Iterator[ast.AST]:
